@@ -402,6 +402,19 @@ class Engine:
                 if set(da.data) != set(db.data):
                     return z3.BoolVal(False)
                 return z3.And([self.eq(da.data[k], db.data[k], st) for k in da.data] or [z3.BoolVal(True)])
+        if (isinstance(a, VLoc) and isinstance(b, VRef) and isinstance(b.T, ty.Map)) or (isinstance(b, VLoc) and isinstance(a, VRef) and isinstance(a.T, ty.Map)):
+            # dict literal == heap dict: same key set and equal values (identity first, then ==, as dict.__eq__ does)
+            loc, m = (a, b) if isinstance(a, VLoc) else (b, a)
+            d = st.loc(loc)
+            if d.kind != "dict":
+                return z3.BoolVal(False)
+            conj = [m.t != 0, st.map_len(m) == len(d.data)]
+            for k, x in d.data.items():
+                kv = VStr(k) if isinstance(k, str) else (VInt(k) if isinstance(k, int) else k)
+                got = st.map_get(m, kv.t)
+                conj.append(st.map_has(m, kv.t))
+                conj.append(self.eq(x, got, st))
+            return z3.And(conj)
         if self.spec and ((isinstance(a, VTuple) and isinstance(b, VLoc)) or (isinstance(a, VLoc) and isinstance(b, VTuple))):
             # only used by specs (log_tags() == [...]): element-wise
             ia = a.items if isinstance(a, VTuple) else st.loc(a).data
